@@ -22,6 +22,15 @@ use prio::vdaf::{Aggregator, AggregateShare, Client, OutputShare, Share, VerifyT
 use std::time::Instant;
 
 /// one decodable message type together with its decoding parameter
+thread_local! {
+    /// value-level round trips of typed values (decode(encode(x)) == x), checked where the value is at hand
+    static VALUE_CHECKS: std::cell::RefCell<Vec<(String, bool)>> = const { std::cell::RefCell::new(Vec::new()) };
+}
+
+fn value_check(what: String, ok: bool) {
+    VALUE_CHECKS.with(|v| v.borrow_mut().push((what, ok)));
+}
+
 pub struct Target {
     /// the format description understood by the Lean driver
     pub fmt: String,
@@ -101,6 +110,20 @@ where
             },
         });
         let (st, sh) = vdaf.verify_init(&vk, ctx, id, &(), &nonce, &public, inp).unwrap();
+        let what = format!("{} aggregators={} proofs={} id={}", std::any::type_name::<T>().rsplit("::").next().unwrap_or(""), num_agg, num_proofs, id);
+        value_check(
+            format!("Prio3VerifyState {}", what),
+            Prio3VerifyState::<T::Field, 32>::get_decoded_with_param(&(&vdaf, id), &st.get_encoded().unwrap()).map(|x| x == st).unwrap_or(false),
+        );
+        value_check(
+            format!("Prio3InputShare {}", what),
+            Prio3InputShare::<T::Field, 32>::get_decoded_with_param(&(&vdaf, id), &inp.get_encoded().unwrap()).map(|x| x == *inp).unwrap_or(false),
+        );
+        value_check(
+            format!("Prio3VerifierShare {}", what),
+            Prio3VerifierShare::<T::Field, 32>::get_decoded_with_param(&st, &sh.get_encoded().unwrap()).map(|x| x == sh).unwrap_or(false),
+        );
+        // the decoded state is as good as the original: the next step on it gives the same result
         ts.push(Target {
             extra: vec![],
             enclen: vec![],
@@ -141,6 +164,23 @@ where
         states[0].clone(),
     ));
     let msg = vdaf.verifier_shares_to_message(ctx, &(), shares.clone()).unwrap();
+    value_check(
+        format!("Prio3VerifierMessage aggregators={} proofs={}", num_agg, num_proofs),
+        Prio3VerifierMessage::<32>::get_decoded_with_param(&states[0], &msg.get_encoded().unwrap()).map(|x| x == msg).unwrap_or(false),
+    );
+    value_check(
+        format!("Prio3PublicShare aggregators={} proofs={}", num_agg, num_proofs),
+        Prio3PublicShare::<32>::get_decoded_with_param(&vdaf, &public.get_encoded().unwrap()).map(|x| x == public).unwrap_or(false),
+    );
+    for (id, st) in states.iter().enumerate() {
+        let back = Prio3VerifyState::<T::Field, 32>::get_decoded_with_param(&(&vdaf, id), &st.get_encoded().unwrap());
+        let same = match (back.map(|b| vdaf.verify_next(ctx, b, msg.clone())), vdaf.verify_next(ctx, st.clone(), msg.clone())) {
+            (Ok(Ok(VerifyTransition::Finish(a))), Ok(VerifyTransition::Finish(b))) => a == b,
+            (Ok(Err(_)), Err(_)) => true,
+            _ => false,
+        };
+        value_check(format!("Prio3VerifyState aggregators={} proofs={} id={}: verify_next on the decoded state", num_agg, num_proofs, id), same);
+    }
     ts.push(target::<Prio3VerifierMessage<32>, _>(
         format!("p3vm 32 {}", (jr > 0) as u8),
         vec![msg.get_encoded().unwrap()],
@@ -418,6 +458,7 @@ pub fn targets(rng: &mut Sm, thorough: bool) -> Vec<Target> {
     let mut ts = vec![];
     primitive_targets(&mut ts, rng);
     prio3_targets(&mut ts, Count::<Field64>::new(), 2, 1, &true, rng);
+    prio3_targets(&mut ts, Count::<Field64>::new(), 2, 3, &false, rng);
     prio3_targets(&mut ts, Sum::<Field64>::new(255).unwrap(), 3, 1, &200u64, rng);
     prio3_targets(&mut ts, Histogram::<Field128, ParallelSum<Field128, Mul>>::new(5, 2).unwrap(), 2, 2, &3usize, rng);
     prio3_targets(&mut ts, SumVec::<Field128, ParallelSum<Field128, Mul>>::new(7, 4, 3).unwrap(), 5, 1, &vec![1u128, 7, 0, 3], rng);
@@ -497,6 +538,12 @@ fn extremes(fmt: &str) -> Vec<Vec<u8>> {
 pub fn run(out: &mut Out, thorough: bool, seed: u64, prop: &str) {
     let mut rng = Sm::new(seed ^ 0xC07);
     let ts = targets(&mut rng, thorough);
+    if prop == "C07" {
+        for (what, ok) in VALUE_CHECKS.with(|v| std::mem::take(&mut *v.borrow_mut())) {
+            out.oracle(ok, || format!("value round trip: {}", what), || "decode(encode(x)) is not x (or the decoded value does not behave as x)".into());
+            out.count("value-roundtrip");
+        }
+    }
     let nmut = if thorough { 400 } else { 60 };
     for t in &ts {
         let mut inputs: Vec<(Vec<u8>, &'static str)> = vec![];
